@@ -225,6 +225,10 @@ def geo_worlds(tier: str, seed: int, *, convs=W.ALL_CONVS, big: bool = True) -> 
     for k, w in enumerate(out):
         if k % 4 == 3:
             w["decoy"] = True           # see worlds.bind
+        if w["conv"] in ("cf1d", "cf2d") and k % 3 == 0 and not w.get("pin_via"):
+            w["bind"] = "explicit"      # see worlds.bind
+            if w.get("via") == "emsopen" or True:
+                w["no_emsopen"] = True
     # other legal names for dimensions and coordinate variables (every third world)
     NAMES = {"cf1d": [{"lat": "latitude", "lon": "longitude", "ydim": "latitude", "xdim": "longitude", "lat_bounds": "latitude_bounds", "lon_bounds": "longitude_bounds"},
                       {"lat": "nav_lat", "lon": "nav_lon", "ydim": "rows", "xdim": "cols"}],     # coordinates that are not dimension coordinates
@@ -239,6 +243,8 @@ def geo_worlds(tier: str, seed: int, *, convs=W.ALL_CONVS, big: bool = True) -> 
     vias = ["memory", "file", "memory", "dask", "memory", "emsopen", "memory"]
     for k, w in enumerate(out):
         w["via"] = w.get("pin_via") or vias[k % len(vias)]
+        if w.get("no_emsopen") and w["via"] == "emsopen":
+            w["via"] = "file"           # (emsarray.open_dataset binds what it detects; a hand-made convention could not be bound)
         if w["conv"] in ("cf1d", "cf2d", "shoc_simple") and "xb" in w["geom"] and k % 3 == 1:
             w["bounds_as_coords"] = True
     return out
